@@ -142,6 +142,13 @@ def is_abstract_group(ip, g):
     return isinstance(g, SObj) and ip.ctx.obj(g).clsname() == "GroupSpec"
 
 
+def is_ed_group(ip, g):
+    return isinstance(g, SObj) and ip.ctx.obj(g).clsname() == "ed25519_group._Ed25519Group"
+
+
+f_ed_decodable = z3.Function("ed_decodable", sym.B, sym.Bool)
+
+
 def _reg_elt(gid, a):
     """facts for an element term in group gid"""
     if sym.FACTS.reg("elt", gid, a):
@@ -151,6 +158,9 @@ def _reg_elt(gid, a):
 
 def view(ip, e):
     """mathematical value of an element object"""
+    if ip.ctx.obj(e).clsname().startswith("ed25519_basic."):
+        from . import spec_ed
+        return spec_ed.ed_view(ip, e)
     return ip.getattr(e, "_v", True)
 
 
@@ -159,46 +169,62 @@ def mk_elt(ip, label):
 
 
 def group_of(ip, e):
+    if ip.ctx.obj(e).clsname().startswith("ed25519_basic."):
+        return ip.lookup_global("Ed25519Group", ip.repo.modules["ed25519_group"])
     return ip.getattr(e, "_g", True)
 
 
 def gq(ip, g):
+    if is_ed_group(ip, g):
+        return spec_ed.L
     if is_abstract_group(ip, g):
         return mkint(f_q(_gid(ip, g)))
     return ip.getattr(g, "q", True)
 
 
 def esize(ip, g):
+    if is_ed_group(ip, g):
+        return 32
     if is_abstract_group(ip, g):
         return mkint(f_esize(_gid(ip, g)))
     return ip.getattr(g, "element_size_bytes", True)
 
 
 def ssize(ip, g):
+    if is_ed_group(ip, g):
+        return 32
     if is_abstract_group(ip, g):
         return mkint(f_ssize(_gid(ip, g)))
     return ip.getattr(g, "scalar_size_bytes", True)
 
 
 def refuses_identity(ip, g):
+    if is_ed_group(ip, g):
+        return True
     if is_abstract_group(ip, g):
         return mkbool(f_refid(_gid(ip, g)))
     return False
 
 
 def G(ip, g):
+    if is_ed_group(ip, g):
+        return spec_ed.ed_B(ip)
     if is_abstract_group(ip, g):
         return SPoint(f_G(_gid(ip, g)))
     return view(ip, ip.getattr(g, "Base", True))
 
 
 def O(ip, g):
+    if is_ed_group(ip, g):
+        return spec_ed.ed_O(ip)
     if is_abstract_group(ip, g):
         return SPoint(f_O(_gid(ip, g)))
     return 1
 
 
 def insub(ip, g, a):
+    if is_ed_group(ip, g):
+        return spec_ed.ed_insub(ip, a)
     if is_abstract_group(ip, g):
         return mkbool(f_insub(_gid(ip, g), a.t))
     p, q = ip.getattr(g, "p", True), ip.getattr(g, "q", True)
@@ -206,6 +232,8 @@ def insub(ip, g, a):
 
 
 def gadd(ip, g, a, b):
+    if is_ed_group(ip, g):
+        return spec_ed.ed_add(ip, a, b)
     if is_abstract_group(ip, g):
         gid = _gid(ip, g)
         t = f_gadd(gid, a.t, b.t)
@@ -217,6 +245,8 @@ def gadd(ip, g, a, b):
 
 
 def gmul(ip, g, n, a):
+    if is_ed_group(ip, g):
+        return spec_ed.ed_mul(ip, n, a)
     if is_abstract_group(ip, g):
         gid = _gid(ip, g)
         t = f_gmul(gid, I(n), a.t)
@@ -228,6 +258,8 @@ def gmul(ip, g, n, a):
 
 
 def enc(ip, g, a):
+    if is_ed_group(ip, g):
+        return spec_ed.ed_enc(ip, a)
     if is_abstract_group(ip, g):
         gid = _gid(ip, g)
         t = f_enc(gid, a.t)
@@ -246,6 +278,8 @@ def enc(ip, g, a):
 
 
 def decodable(ip, g, b):
+    if is_ed_group(ip, g):
+        return ed_decodable(ip, b)
     if is_abstract_group(ip, g):
         gid = _gid(ip, g)
         bt = Bt(b)
@@ -264,6 +298,9 @@ def decodable(ip, g, b):
 
 
 def dec(ip, g, b):
+    if is_ed_group(ip, g):
+        ed_decodable(ip, b)
+        return SPoint(f_ed_dec(Bt(b)))
     if is_abstract_group(ip, g):
         decodable(ip, g, b)
         return SPoint(f_dec(_gid(ip, g), Bt(b)))
@@ -271,6 +308,8 @@ def dec(ip, g, b):
 
 
 def p2s(ip, g, pw):
+    if is_ed_group(ip, g):
+        return p2s_def(ip, pw, 32, spec_ed.L)
     if is_abstract_group(ip, g):
         gid = _gid(ip, g)
         t = f_p2s(gid, Bt(pw))
@@ -287,6 +326,8 @@ def p2s_def(ip, pw, ss, q):
 
 
 def ae(ip, g, seed):
+    if is_ed_group(ip, g):
+        return ed_ae(ip, seed)
     if is_abstract_group(ip, g):
         gid = _gid(ip, g)
         t = f_ae(gid, Bt(seed))
@@ -298,14 +339,19 @@ def ae(ip, g, seed):
 
 
 def ae_ok(ip, g, seed):
+    if is_ed_group(ip, g):
+        return True       # try-and-increment never gives up (termination is not proved)
     if is_abstract_group(ip, g):
         return mkbool(f_ae_ok(_gid(ip, g), Bt(seed)))
-    p, es = ip.getattr(g, "p", True), ip.getattr(g, "element_size_bytes", True)
+    p, q, es = ip.getattr(g, "p", True), ip.getattr(g, "q", True), ip.getattr(g, "element_size_bytes", True)
     h = sym.HKDF(Bt(seed), sym.lit_bytes(b""), sym.lit_bytes(b"SPAKE2 arbitrary element"), I(es))
-    return mkbool(sym.bval(h) % I(p) != 0)
+    hh = sym.bval(h) % I(p)
+    return mkbool(z3.And(hh != 0, sym.POWMOD(hh, (I(p) - 1) / I(q), I(p)) != 1))
 
 
 def s2b(ip, g, i):
+    if is_ed_group(ip, g):
+        return SBytes(sym.brev(sym.mk_bytes(32, I(i) % spec_ed.L)))
     if is_abstract_group(ip, g):
         gid = _gid(ip, g)
         t = f_s2b(gid, I(i))
@@ -320,6 +366,8 @@ def s2b(ip, g, i):
 
 
 def b2s_ok(ip, g, b):
+    if is_ed_group(ip, g):
+        return mkbool(sym.blen(Bt(b)) == 32)
     if is_abstract_group(ip, g):
         gid = _gid(ip, g)
         sym.FACTS.add(z3.Implies(f_b2s_ok(gid, Bt(b)), sym.blen(Bt(b)) == f_ssize(gid)), "ILAW-b2s-len")
@@ -330,6 +378,10 @@ def b2s_ok(ip, g, b):
 
 
 def b2s(ip, g, b):
+    if is_ed_group(ip, g):
+        t = sym.brev(Bt(b))
+        sym.wf_upper(t)
+        return mkint(sym.bval(t))
     if is_abstract_group(ip, g):
         return mkint(f_b2s(_gid(ip, g), Bt(b)))
     return mkint(sym.bval(Bt(b)))
@@ -341,6 +393,8 @@ def rs(ip, g, e, k):
         gid = _gid(ip, g)
         t = f_rs(gid, IV(e.stream), I(k))
         return mkint(t)
+    if is_ed_group(ip, g):
+        return mkint(sym.bval(sym.ENT(IV(e.stream), I(k), 64)) % spec_ed.L)
     q = ip.getattr(g, "q", True)
     return rr(ip, q, e, k)
 
@@ -537,3 +591,54 @@ def entropy_sizes_all(ip, n):
             return False
         r = ip.and_(r, ip.equals(k, n))
     return r
+
+
+from .spec_ed import *   # noqa: E402,F401  (Ed25519 vocabulary: spec.ed_*)
+from . import spec_ed  # noqa: E402
+
+f_ed_dec = z3.Function("ed_dec", sym.B, spec_ed.EPt)
+
+
+def ed_decodable(ip, b):
+    """b is THE canonical 32-byte encoding of a non-identity point of the order-L subgroup.
+    (definitional extension: ed_dec(b) is that point; well defined because ed_enc is injective)"""
+    bt = Bt(b)
+    if sym.FACTS.reg("eddec", bt):
+        P = f_ed_dec(bt)
+        e = spec_ed.ed_enc(ip, SPoint(P)).t
+        sym.FACTS.add(z3.Implies(f_ed_decodable(bt), z3.And(sym.blen(bt) == 32, spec_ed.f_insub(P), P != spec_ed.c_O, e == bt)), "ed-decodable-def")
+    return mkbool(f_ed_decodable(bt))
+
+
+def ed_decodable_intro(ip, P, b):
+    """insub(P), P != O, enc(P) == b  =>  decodable(b) and dec(b) == P   (the other half of the definition)"""
+    bt = Bt(b)
+    ed_decodable(ip, b)
+    e = spec_ed.ed_enc(ip, P).t
+    sym.FACTS.add(z3.Implies(z3.And(spec_ed.f_insub(P.t), P.t != spec_ed.c_O, e == bt),
+                             z3.And(f_ed_decodable(bt), f_ed_dec(bt) == P.t)), "ed-decodable-def")
+    return True
+
+
+def ed_ae(ip, seed):
+    """C14: 8 * (first curve point at or after y = be(HKDF(seed, info='SPAKE2 arbitrary element', 48 bytes)) mod Q)"""
+    h = sym.HKDF(Bt(seed), sym.lit_bytes(b""), sym.lit_bytes(b"SPAKE2 arbitrary element"), 48)
+    y = sym.bval(h) % spec_ed.Q
+    return spec_ed.ed_ae_from(ip, mkint(y), 0)
+
+
+def ed_decode_xy(ip, s):
+    """the affine coordinates decodepoint computes from a byte string (RFC 8032 decoding with the library's xrecover)"""
+    t = sym.brev(sym.btake(Bt(s), 32))
+    sym.wf_upper(t)
+    u = sym.bval(t)
+    y = u % (2 ** 255)
+    x0 = spec_ed.f_xrec(y)
+    sign = (u / (2 ** 255)) % 2
+    x = z3.If((x0 % 2 == 1) != (sign == 1), spec_ed.Q - x0, x0)
+    return (mkint(x), mkint(y))
+
+
+
+def ed_group(ip):
+    return ip.lookup_global("Ed25519Group", ip.repo.modules["ed25519_group"])
